@@ -292,6 +292,14 @@ def run():
         o = Obligation("run_dedupe header merge", "E2 mirsym/z3")
         o.verdict, o.detail = "inconclusive", str(ex)
         rep.add(o)
+    # which string the keep / drop patterns are asked about
+    try:
+        from obligations import C08_patterns
+        C08_patterns.add(rep, prog)
+    except Inconclusive as ex:
+        o = Obligation("keep / drop patterns", "E2 mirsym/z3")
+        o.verdict, o.detail = "inconclusive", str(ex)
+        rep.add(o)
     # sub-grouping by isolate roots / file ids and Path::is_prefix_of (shared with C06 / C14): "kept or dropped as a whole" rests on them
     try:
         from obligations import C06
